@@ -217,6 +217,50 @@ def check_one(w, prog):
     return None
 
 
+def after_failed_job():
+    """(first script, second script): the second job's output is what it writes when run alone, whether the first
+    job ended normally, was stopped by an error in mid-line, or left a printf half collected"""
+    firsts = ['print 1', 'print 1 println 2', 'print 1 hue {1 / 0}', 'print 1 hue {1 / 0} print 3',
+              'printf "{} {}" 1 {1 / 0}', 'println 1 print 2 hue {1 / 0}', 'print "a" printf "{}\\n" 5 hue {1 / 0}']
+    seconds = ['print 2', 'print 2 print 4', 'println 2', 'printf "{} {}" 3 4', 'printf "x{}\\n" 3 print 4']
+    for a in firsts:
+        for b in seconds:
+            yield a, b
+
+
+def _worker_d(rank, n):
+    w = world.World(world.POP_ONE, output='stdout')
+    st = dict(cases=0, undefined=0, texts=0, viol={})
+
+    def stdout_of(texts):
+        log = []
+        saved = sys.stdout
+        sys.stdout = StdoutRecorder(log)
+        try:
+            outs = []
+            for t in texts:
+                del log[:]
+                w.reset()
+                w.run_script(t)
+                outs.append(''.join(e[1] for e in log if e[0] == 'stdout'))
+        finally:
+            sys.stdout = saved
+        return outs
+    for i, (a, b) in enumerate(after_failed_job()):
+        if i % n != rank:
+            continue
+        st['cases'] += 1
+        alone = stdout_of([b])[0]
+        after = stdout_of([a, b])[1]
+        if alone != after:
+            cur = st['viol'].setdefault('output-depends-on-the-job-before', [0, '%s  |then|  %s' % (a, b),
+                                                                         'alone %r, after the other job %r' % (alone, after)])
+            cur[0] += 1
+        else:
+            st['texts'] += 1
+    return st
+
+
 def _worker(rank, n, part, maxlen):
     w = world.World(world.POP_ONE, output='stdout')
     st = dict(cases=0, undefined=0, texts=set(), viol={})
@@ -254,7 +298,7 @@ def run(tier, seed):
     maxlen = 3 if tier == 'quick' else 4
     ra = par.run(_worker, ('A', maxlen))
     rb = par.run(_worker, ('B', 0))
-    rc = par.run(_worker, ('C', 2 if tier == 'quick' else 3))
+    rc = par.run(_worker, ('C', 2 if tier == 'quick' else 3)) + par.run(_worker_d, ())
     assert sum(r['cases'] - r['undefined'] for r in rc) > 100
     viol = {}
     for r in ra + rb + rc:
@@ -277,7 +321,8 @@ def run(tier, seed):
         'distinct_nontrivial': sum(r['texts'] for r in ra + rb + rc),
         'rule': 'A: every sequence of <=%d statements over a %d-statement output alphabet (after a fixed prelude); B: every '
                 'format string of the field/spec/separator product between two prints and around a device command; C: printf/print '
-                'values that are calls (routines returning out of loops, printing, running a printf of their own) in every position; '
+                'values that are calls (routines returning out of loops, printing, running a printf of their own) in every position; D: a job '
+                'after a job that ended normally / in an error / with a half-collected printf writes what it writes alone; '
                 'stdout captured under the production binding; distinct_nontrivial = distinct programs whose text matched' % (
                     maxlen, len(alphabet())),
         'exhaustive': True,
